@@ -17,23 +17,23 @@ OUTSIDE = ["dynamic (callable) values", "deleting attributes", "hierarchies othe
            "diamond A>(L,R)>J (L redeclares x)", "more than 2 added parameters"]
 ASSUMPTIONS = ["values are ints in Integer parameters without bounds"]
 STUBS = ["JSON text is abstract: Parameter._serializers['json'] replaced by a subclass of the real JSONSerialization whose dumps/loads are the identity (the serializer loop and per-type hooks still run)"]
-N_OPS = 6
+N_OPS = 7
 
 
 def _mk(shape):
     class A(param.Parameterized):
-        x = param.Integer(default=1)
+        x = param.Integer(default=1, bounds=(-1000, 1000))
         z = param.Integer(default=10)
     if shape == 0:
         class B(A):
             pass
 
         class C(B):
-            x = param.Integer(default=5)
+            x = param.Integer(default=5, bounds=(-1000, 1000))
         return [A, B, C]
 
     class L(A):
-        x = param.Integer(default=5)
+        x = param.Integer(default=5, bounds=(-1000, 1000))
 
     class R(A):
         pass
@@ -123,6 +123,11 @@ def _body(classes, shape, k, each, steps, watch):
             objs[-1].x = v
         elif o == 5:    # add_parameter overriding an existing name
             K.param.add_parameter('z', param.Integer(default=v))
+        elif o == 6:    # rejected class-level set (out of bounds): whatever it leaves behind must stay consistent
+            try:
+                K.x = 5000
+            except ValueError:
+                pass
         for cname, new, via in seen:
             check('C13.watch_sees_getattr', new == via, {'cls': cname, 'op': o if isinstance(o, int) else pick(o, 0, N_OPS - 1)})
         if not each and step < k - 1:
@@ -203,4 +208,4 @@ def bounds(tier):
                          if tier == 'quick' else
                          'k=4 opcode/target programs with constant values; k=2 with symbolic unbounded int values (300 s budget per shard, exhaustion not expected)',
                 hierarchies=['chain A>B>C (C redeclares x)', 'diamond A>(L,R)>J (L redeclares x)'],
-                opcodes=['namespace read', 'class set', 'add_parameter new', 'create instance', 'instance set', 'add_parameter overriding z'])
+                opcodes=['namespace read', 'class set', 'add_parameter new', 'create instance', 'instance set', 'add_parameter overriding z', 'rejected class set'])
